@@ -96,6 +96,10 @@ func zzH_C19_session() {
 	}
 	st := verifHelperState()
 	verifAssert(st != 1, "helper process left running")
+	if st >= 2 && !z.serverFinished.Load() {
+		// the helper is gone while the remote side has not finished: it must be told to give up, whatever the exit code
+		verifAssert(zzContains19(srv.data, zmodemCancelFullSequence), "helper exited but the waiting remote side was not sent the cancel sequence")
+	}
 	if z.errorOccurred.Load() {
 		verifAssert(zzContains19(srv.data, zmodemCancelFullSequence), "abnormal end without the cancel sequence to the remote side")
 		verifReach("aborted")
